@@ -28,9 +28,9 @@ EncFrom(s, i) == IF i > Len(s) THEN <<>> ELSE EncCp(s[i]) \o EncFrom(s, i + 1)
 Utf8Enc(s) == EncFrom(s, 1)
 
 IsContByte(b) == b >= 128 /\ b <= 191
-\* utf8.DecodeRune on bytes b[i..]: [r |-> rune, w |-> width]; the accept ranges of utf8.first
-DecodeAt(b, i) ==
-  LET n == Len(b) - i + 1
+\* utf8.DecodeRune on the bytes b[i..hi] (1-based, inclusive): [r |-> rune, w |-> width]; the accept ranges of utf8.first
+DecodeAtN(b, i, hi) ==
+  LET n == hi - i + 1
       b0 == b[i]
       bad == [r |-> RuneError, w |-> 1]
       lo2 == CASE b0 = 224 -> 160 [] b0 = 240 -> 144 [] OTHER -> 128       \* second byte lower bound
@@ -44,22 +44,29 @@ DecodeAt(b, i) ==
            THEN [r |-> (b0 - 224) * 4096 + (b[i + 1] - 128) * 64 + (b[i + 2] - 128), w |-> 3] ELSE bad)
      ELSE (IF n >= 4 /\ b[i + 1] >= lo2 /\ b[i + 1] <= hi2 /\ IsContByte(b[i + 2]) /\ IsContByte(b[i + 3])
            THEN [r |-> (b0 - 240) * 262144 + (b[i + 1] - 128) * 4096 + (b[i + 2] - 128) * 64 + (b[i + 3] - 128), w |-> 4] ELSE bad)
+DecodeAt(b, i) == DecodeAtN(b, i, Len(b))
 
-RECURSIVE DecFrom(_, _)
-DecFrom(b, i) == IF i > Len(b) THEN <<>> ELSE LET d == DecodeAt(b, i) IN <<d.r>> \o DecFrom(b, i + d.w)
+RECURSIVE DecRange(_, _, _, _)
+\* []rune(s[lo-1:hi]) for 1-based inclusive byte indices lo..hi (a sequence cut at hi is decoded as Go decodes the cut string)
+DecRange(b, i, hi, acc) == IF i > hi THEN acc ELSE LET d == DecodeAtN(b, i, hi) IN DecRange(b, i + d.w, hi, Append(acc, d.r))
 \* []rune(s)
-Utf8Dec(b) == DecFrom(b, 1)
+Utf8Dec(b) == DecRange(b, 1, Len(b), <<>>)
 
 \* s[lo:hi] of a Go string (0-based byte offsets, hi exclusive)
 ByteSlice(b, lo, hi) == SubSeq(b, lo + 1, hi)
+\* []rune(s[lo:hi])
+DecSlice(b, lo, hi) == DecRange(b, lo + 1, hi, <<>>)
+RECURSIVE CountRange(_, _, _, _)
+CountRange(b, i, hi, acc) == IF i > hi THEN acc ELSE CountRange(b, i + DecodeAtN(b, i, hi).w, hi, acc + 1)
 \* len([]rune(s[:off])): the code-point position of byte offset off (funcMatch)
-RuneCountTo(b, off) == Len(Utf8Dec(ByteSlice(b, 0, off)))
+RuneCountTo(b, off) == CountRange(b, 1, off, 0)
 
 \* the byte offsets at which `for i := range s` stops, followed by len(s): <<0, w1, w1+w2, ..., len>>
 RECURSIVE RangeStarts(_, _)
 RangeStarts(b, i) == IF i > Len(b) THEN <<Len(b)>> ELSE <<i - 1>> \o RangeStarts(b, i + DecodeAt(b, i).w)
 Boundaries(b) == RangeStarts(b, 1)
-IsBoundary(b, off) == \E k \in 1..Len(Boundaries(b)) : Boundaries(b)[k] = off
+BoundarySet(b) == LET bs == Boundaries(b) IN {bs[k] : k \in 1..Len(bs)}
+IsBoundary(b, off) == off \in BoundarySet(b)
 
 \* valid UTF-8 <=> re-encoding the decoded runes gives the bytes back
 ValidUtf8(b) == Utf8Enc(Utf8Dec(b)) = b
